@@ -1981,6 +1981,10 @@ func TestVerifC08(t *testing.T) {
 	nHandoverLRU := vk.Scale(240, 480)
 	nHandoverTiming := vk.Scale(300, 600)
 	extraHistories := 0
+	nDrift := vk.Scale(64, 400) // releases per wave, 64 drifted entries each
+	if os.Getenv("VERIF_C08_ONLY") == "drift" { // development aid: the drift layer alone (the run is then INCONCLUSIVE by design)
+		nTiming, nLRU, nE2E, nSlack, nTypes, nReconf, nReconfSize, nHandoverLRU, nHandoverTiming = 0, 0, 0, 0, 0, 0, 0, 0, 0
+	}
 
 	id := 0
 	for wave := 0; wave < waves; wave++ {
@@ -2078,6 +2082,18 @@ func TestVerifC08(t *testing.T) {
 			h.runRace(vk.Scale(1500, 12000))
 			m.Set("race_phase_seconds", time.Since(tr0).Seconds())
 		}
+		// drift phase (c08_drift_verif_test.go): concurrent hits on an entry whose packed reply is out of
+		// date; runs alone for the same reason. Id from a range of its own.
+		{
+			extraHistories++
+			hid := 510000 + wave
+			h := &c08Hist{env: env, id: hid, kind: "drift", seen: map[string]bool{}, start: time.Now(),
+				cfg: c08Cfg{Opt: wave%2 == 0, Stale: 2, Max: 0, Fixed: "none"}}
+			h.r = vk.NewRand(0xC08<<20 | uint64(hid))
+			td0 := time.Now()
+			h.runDrift(nDrift)
+			m.Set("drift_phase_seconds", time.Since(td0).Seconds())
+		}
 	}
 	m.Set("histories", id+extraHistories)
 	m.Set("documented_ttl_slack", "control/dns_cache.go:17-22 ttlRefreshThresholdSeconds = 15; control/dns_control.go comment above LookupDnsRespCache_")
@@ -2122,5 +2138,14 @@ func TestVerifC08(t *testing.T) {
 		"handover_successor_fixed_ttl_checked", "handover_successor_fixed_ttl_differs_from_predecessor",
 		"handover_deadline_matches_fixed_ttl_shorter", "handover_deadline_matches_fixed_ttl_longer",
 		"handover_timing_second_handover", "handover_timing_histories_completed")
+	// concurrent hits on a drifted entry: rounds in which the packed reply was re-made while at least one
+	// other reader was being answered, for idle times around and far above the slack, remaining
+	// lifetimes from seconds to hours, both reader kinds, with a replacing insert / a janitor alongside
+	m.Require("drift_rounds", "drift_rounds_with_repack", "drift_rounds_with_two_or_more_readers_inside_one_repack",
+		"drift_replies_judged", "drift_ttl_within_slack", "drift_reader_kind_entry", "drift_reader_kind_lookup",
+		"drift_rounds_idle_below_slack", "drift_rounds_idle_just_above_slack", "drift_rounds_idle_far_above_slack",
+		"drift_rounds_remaining_under_20s", "drift_rounds_remaining_under_1h", "drift_rounds_remaining_hours",
+		"drift_rounds_with_writer", "drift_rounds_with_janitor", "drift_entry_reader_told_to_build_exact_answer",
+		"drift_replies_repacked_bytes", "drift_readers_per_round_02", "drift_histories_completed")
 	m.Done(t)
 }
